@@ -63,6 +63,44 @@ func (f *Frame) rangeIndexInv(b *ssa.BasicBlock) func(st *State) Term {
 	}
 }
 
+// rangeExpr returns the value of the slice operand of the k-th range-over-slice loop ("rangeexpr#k").
+func (f *Frame) rangeExpr(name string) (Term, types.Type, bool) {
+	want := 0
+	if i := strings.Index(name, "#"); i >= 0 {
+		fmt.Sscanf(name[i+1:], "%d", &want)
+	}
+	k := 0
+	for _, b := range f.fn.Blocks {
+		if b.Comment != "rangeindex.loop" {
+			continue
+		}
+		if k != want {
+			k++
+			continue
+		}
+		for _, in := range b.Instrs {
+			bo, ok := in.(*ssa.BinOp)
+			if !ok || bo.Op.String() != "<" {
+				continue
+			}
+			c, ok := bo.Y.(*ssa.Call)
+			if !ok {
+				return Term{}, nil, false
+			}
+			if bi, isB := c.Call.Value.(*ssa.Builtin); !isB || bi.Name() != "len" || len(c.Call.Args) != 1 {
+				return Term{}, nil, false
+			}
+			v, ok := f.regs[c.Call.Args[0]]
+			if !ok {
+				return Term{}, nil, false
+			}
+			return v.T, c.Call.Args[0].Type(), true
+		}
+		return Term{}, nil, false
+	}
+	return Term{}, nil, false
+}
+
 func (f *Frame) enterLoop(st *State, b *ssa.BasicBlock, li *loopInfo) *State {
 	vc := f.vc
 	li.pre = st.clone()
@@ -328,6 +366,10 @@ func (f *Frame) execDefer(st *State, x *ssa.Defer) {
 			}
 		}
 		vc.note("deferred closure %s is verified separately (effect on tracked state must be declared in its own contract)", fn.Name())
+		if vc.p.contractFor(fn) == nil {
+			// nothing is known about what runs at function exit (and, with recover(), after a panic): not established
+			vc.oblige(st, "frame", "defer:"+fn.Name(), False, nil, "deferred closure "+fn.Name()+" has no contract: what it does at function exit (writes, calls, recovered panics) is not accounted for", x.Pos())
+		}
 		return
 	case *ssa.Function:
 		vc.deferred = append(vc.deferred, vc.p.funcKey(v))
